@@ -412,7 +412,7 @@ class Evidence(object):
 
 
 def save_replay(prop, obj, suffix=".json"):
-    d = os.path.join(VERIF, "replay", prop)
+    d = os.path.join(os.environ.get("VERIF_REPLAY_DIR", os.path.join(VERIF, "replay")), prop)
     os.makedirs(d, exist_ok=True)
     data = json.dumps(obj, indent=1, sort_keys=True) if not isinstance(obj, (bytes, str)) else obj
     if isinstance(data, str):
